@@ -78,6 +78,11 @@ def candidates(name, cls):
         out.append(pfx + free[:-2] + "_t")
     if len(free) == 1 and cls in ("var", "local", "param") and not pfx:
         pass
+    # a keyword wrapped in underscores (still an ordinary identifier)
+    for kw in sorted(KEYWORDS):
+        for cand in (kw + "_", "_" + kw, "_" + kw + "_", kw + "__"):
+            if len(cand) == len(free) and kw.islower():
+                out.append(pfx + (cand.upper() if free.isupper() else cand))
     # keyword-adjacent name of the same length
     for adj in ADJACENT:
         if len(adj) == len(free):
